@@ -13,7 +13,7 @@ func InitGenesis(ctx sdk.Context, k keeper.Keeper, state *types.GenesisState) {
 	for _, item := range state.NetFeeCollectedData {
 		err := k.SetNetFeeCollectedData(ctx, item.AppId, item.AssetId, item.NetFeesCollected)
 		if err != nil {
-			return
+			continue
 		}
 	}
 
@@ -24,7 +24,7 @@ func InitGenesis(ctx sdk.Context, k keeper.Keeper, state *types.GenesisState) {
 	for _, item := range state.CollectorLookup {
 		err := k.SetCollectorLookupTable(ctx, item)
 		if err != nil {
-			return
+			continue
 		}
 	}
 
